@@ -173,9 +173,9 @@ theorem frame_runTxReqBodyHooks (cfg : Cfg) (uid : Nat) (data : Option Bytes) (i
     · intro c'
       exact ih c'
 
-theorem frame_reqRunHookBodyData (cfg : Cfg) (data : Option Bytes) (g : Nat) (c : Conn) :
-    FrameDirs c (reqRunHookBodyData cfg data g c).1 := by
-  unfold reqRunHookBodyData
+theorem frame_reqRunHookBodyDataL (cfg : Cfg) (data : Option Bytes) (g : Nat) (l : Bool) (c : Conn) :
+    FrameDirs c (reqRunHookBodyDataL cfg data g l c).1 := by
+  unfold reqRunHookBodyDataL
   split
   · exact FrameDirs.refl c
   · cases c.inn.tx with
@@ -192,6 +192,137 @@ theorem frame_reqRunHookBodyData (cfg : Cfg) (data : Option Bytes) (g : Nat) (c 
           · exact frame_runCallback ..
           · exact FrameDirs.refl c3
 
+theorem frame_reqRunHookBodyData (cfg : Cfg) (data : Option Bytes) (g : Nat) (c : Conn) :
+    FrameDirs c (reqRunHookBodyData cfg data g c).1 := by
+  unfold reqRunHookBodyData; exact frame_reqRunHookBodyDataL ..
+
+theorem frame_unsupported (c : Conn) : FrameDirs c { c with unsupported := true } := ⟨rfl, rfl⟩
+theorem frame_zoracle (c : Conn) (zs : List ZRes) : FrameDirs c { c with zoracle := zs } := ⟨rfl, rfl⟩
+
+theorem frame_resRunHookBodyData (data : Option Bytes) (c : Conn) : FrameDirs c (resRunHookBodyData data c).1 := by
+  unfold resRunHookBodyData
+  split
+  · exact FrameDirs.refl c
+  · cases c.out.tx with
+    | none => exact FrameDirs.refl c
+    | some uid =>
+      simp only
+      apply frame_andThen
+      · exact frame_runCallbackN ..
+      · intro c2; exact frame_runCallback ..
+
+theorem frame_decFinalCallback (cfg : Cfg) (req : Bool) (uid : Nat) (l : Bool) (data : Option Bytes) (c : Conn) :
+    FrameDirs c (decFinalCallback cfg req uid l data c).1 := by
+  unfold decFinalCallback
+  simp only
+  cases req with
+  | true =>
+    simp only [if_true]
+    have h := frame_reqRunHookBodyDataL cfg data 0 l (c.modTx uid fun t => { t with reqEntityLen := t.reqEntityLen + (data.map (·.length)).getD 0 })
+    have h0 := (frame_modTx uid (fun t => { t with reqEntityLen := t.reqEntityLen + (data.map (·.length)).getD 0 }) c).trans h
+    split
+    · exact h0
+    · split <;> exact h0
+  | false =>
+    simp only [Bool.false_eq_true, if_false]
+    have h := frame_resRunHookBodyData data (c.modTx uid fun t => { t with resEntityLen := t.resEntityLen + (data.map (·.length)).getD 0 })
+    have h0 := (frame_modTx uid (fun t => { t with resEntityLen := t.resEntityLen + (data.map (·.length)).getD 0 }) c).trans h
+    split
+    · exact h0
+    · split <;> exact h0
+
+
+/-- the functions of the decompression driver leave both direction records alone (apart from cleared tx references): they only
+    touch the oracle, the unsupported marker, and what the callbacks touch -/
+theorem frame_dec (cfg : Cfg) (req : Bool) (uid : Nat) : ∀ fuel : Nat,
+    (∀ l useNext rest data c, FrameDirs c (decSend cfg req uid l fuel useNext rest data c).2.1) ∧
+    (∀ d drec rest inp c, FrameDirs c (decLoop cfg req uid d fuel drec rest inp c).2.1) ∧
+    (∀ d drec rest inp c, FrameDirs c (decStep cfg req uid d fuel drec rest inp c).2.1) ∧
+    (∀ ds data c, FrameDirs c (decompress cfg req uid fuel ds data c).2.1) := by
+  intro fuel
+  induction fuel with
+  | zero =>
+    refine ⟨?_, ?_, ?_, ?_⟩
+    · intro l useNext rest data c; unfold decSend; exact frame_unsupported c
+    · intro d drec rest inp c; unfold decLoop; exact frame_unsupported c
+    · intro d drec rest inp c; unfold decStep; exact frame_unsupported c
+    · intro ds data c; unfold decompress; exact frame_unsupported c
+  | succ k ih =>
+    obtain ⟨ihS, ihL, ihT, ihD⟩ := ih
+    refine ⟨?_, ?_, ?_, ?_⟩
+    · intro l useNext rest data c
+      unfold decSend
+      split
+      · exact ihD ..
+      · exact frame_decFinalCallback ..
+    · intro d drec rest inp c
+      unfold decLoop
+      split
+      · exact FrameDirs.refl c
+      · by_cases hfull : (drec.buf.length == GZIP_BUF_SIZE) = true
+        · simp only [hfull, if_true]
+          rcases hx : decSend cfg req uid false k (drec.kind != 0) rest (some drec.buf) c with ⟨rest1, c1, rc1⟩
+          have f1 : FrameDirs c c1 := by have := ihS false (drec.kind != 0) rest (some drec.buf) c; rw [hx] at this; exact this
+          simp only
+          by_cases hrc : (rc1 != Rc.ok) = true
+          · simp only [hrc, if_true]; exact f1
+          · simp only [hrc, Bool.false_eq_true, if_false]
+            exact f1.trans (ihT ..)
+        · simp only [hfull, Bool.false_eq_true, if_false]
+          exact ihT ..
+    · intro d drec rest inp c
+      unfold decStep
+      split
+      · exact frame_unsupported c
+      split
+      · exact FrameDirs.refl c
+      split
+      · exact frame_unsupported c
+      · rename_i z zs hz
+        simp only
+        generalize (if ((drec.buf ++ z.produced).length > 0 && z.rc == Z_DATA_ERROR) = true then Z_STREAM_END else z.rc) = rcv
+        split
+        · -- stream end: the buffer goes out
+          rcases hx : decSend cfg req uid false k (drec.kind != 0) rest (some (drec.buf ++ z.produced)) { c with zoracle := zs } with ⟨rest1, c1, rc1⟩
+          have f1 : FrameDirs c c1 := by
+            have := ihS false (drec.kind != 0) rest (some (drec.buf ++ z.produced)) { c with zoracle := zs }
+            rw [hx] at this; exact (frame_zoracle c zs).trans this
+          simp only
+          split <;> exact f1
+        · split
+          · split
+            · split
+              · exact frame_zoracle c zs
+              · exact (frame_zoracle c zs).trans (ihL ..)
+            · rcases hx : decFinalCallback cfg req uid false (some d) { c with zoracle := zs } with ⟨c1, rc1⟩
+              have f1 : FrameDirs c c1 := by
+                have := frame_decFinalCallback cfg req uid false (some d) { c with zoracle := zs }
+                rw [hx] at this; exact (frame_zoracle c zs).trans this
+              simp only
+              split <;> exact f1
+          · exact (frame_zoracle c zs).trans (ihL ..)
+    · intro ds data c
+      unfold decompress
+      cases ds with
+      | nil => exact FrameDirs.refl c
+      | cons drec rest =>
+        simp only
+        split
+        · rcases hx : decFinalCallback cfg req uid data.isNone data c with ⟨c1, rc1⟩
+          have f1 : FrameDirs c c1 := by have := frame_decFinalCallback cfg req uid data.isNone data c; rw [hx] at this; exact this
+          exact f1
+        · cases data with
+          | none =>
+            simp only
+            rcases hx : decSend cfg req uid true k (drec.kind != 0) rest (if drec.buf.length > 0 then some drec.buf else none) c with ⟨rest1, c1, rc1⟩
+            have f1 : FrameDirs c c1 := by
+              have := ihS true (drec.kind != 0) rest (if drec.buf.length > 0 then some drec.buf else none) c; rw [hx] at this; exact this
+            simp only
+            split <;> exact f1
+          | some d => exact ihL ..
+
+
+/-- body processing leaves both direction records alone - with or without the request decompressor in the way -/
 theorem frame_reqProcessBodyData (cfg : Cfg) (data : Option Bytes) (g : Nat) (c : Conn) :
     FrameDirs c (reqProcessBodyData cfg data g c).1 := by
   unfold reqProcessBodyData
@@ -200,7 +331,18 @@ theorem frame_reqProcessBodyData (cfg : Cfg) (data : Option Bytes) (g : Nat) (c 
   | some uid =>
     simp only
     split
-    · exact ⟨rfl, rfl⟩
+    · split
+      · exact FrameDirs.refl c
+      · split
+        · exact frame_unsupported c
+        split
+        · exact frame_unsupported c
+        · rcases hx : decompress cfg true uid (8 * (data.map (·.length)).getD g + 128) c.inDecs data c with ⟨ds, c1, rc1⟩
+          have f1 : FrameDirs c c1 := by
+            have := (frame_dec cfg true uid (8 * (data.map (·.length)).getD g + 128)).2.2.2 c.inDecs data c
+            rw [hx] at this; exact this
+          simp only
+          exact f1.trans ⟨rfl, rfl⟩
     · have h := frame_reqRunHookBodyData cfg data g
         (c.modTx uid fun t => { t with reqEntityLen := t.reqEntityLen + (data.map (·.length)).getD g })
       split <;> exact (frame_modTx _ _ c).trans h
@@ -227,13 +369,17 @@ theorem reqProcessBodyData_rc (cfg : Cfg) (data : Option Bytes) (g : Nat) (c : C
   | none => exact Or.inr rfl
   | some uid =>
     simp only
-    by_cases h1 : c.reqDecompressor = true
-    · simp [h1]
-    · simp only [h1]
-      by_cases h2 : ((reqRunHookBodyData cfg data g
-          (c.modTx uid fun t => { t with reqEntityLen := t.reqEntityLen + (data.map (·.length)).getD g })).2 != Rc.ok) = true
-      · simp [h2]
-      · simp [h2]
+    split
+    · split
+      · exact Or.inr rfl
+      · split
+        · exact Or.inl rfl
+        · split
+          · exact Or.inl rfl
+          · exact Or.inl rfl
+    · split
+      · exact Or.inr rfl
+      · exact Or.inl rfl
 
 end Htp.Conn
 
